@@ -6,7 +6,7 @@ from concurrent.futures import ThreadPoolExecutor
 VERIF = os.path.dirname(os.path.dirname(os.path.abspath(__file__)))
 man = json.load(open(os.path.join(VERIF, "MANIFEST.json")))
 claimed = [c["property_id"] for c in man["checks"]]
-names = sys.argv[1:] or sorted(os.path.basename(d) for d in glob.glob(os.path.join(VERIF, "benign", "G*-*")))
+names = sys.argv[1:] or sorted(os.path.basename(d) for d in glob.glob(os.path.join(VERIF, "benign", "*-*")))
 mir_props = [c["property_id"] for c in man["checks"] if "mirfacts" in c.get("engine", "")]
 
 def one(name):
